@@ -336,10 +336,15 @@ def run(ctx, host=None):
         chk.ok(R4, REPACK, 'unlink of pack files', detail='a pack file is removed only when no committed row references it (existence query) or after its rows were re-pointed and committed')
     ra = prog.fn('container:Container.repack')
     lps = [n for n in walk_local(ra.node) if isinstance(n, ast.For)]
-    if lps and norm(lps[0].iter) == 'self._list_packs()' and any(isinstance(c, ast.Call) and norm(c.func) == 'self.repack_pack' and c.args and norm(c.args[0]) == norm(lps[0].target) for c in ast.walk(lps[0])):
-        chk.ok(R4, ra.qualname, norm(lps[0].iter), detail='every existing pack is repacked')
+    uncond = False
+    if lps:
+        for i, st in enumerate(lps[0].body):
+            if isinstance(st, ast.Expr) and isinstance(st.value, ast.Call) and norm(st.value.func) == 'self.repack_pack' and st.value.args and norm(st.value.args[0]) == norm(lps[0].target):
+                uncond = not any(isinstance(x, (ast.Continue, ast.Break, ast.Return, ast.Raise)) for prev in lps[0].body[:i] for x in ast.walk(prev))
+    if lps and norm(lps[0].iter) == 'self._list_packs()' and uncond:
+        chk.ok(R4, ra.qualname, norm(lps[0].iter), detail='every existing pack is repacked, unconditionally')
     else:
-        chk.bad(R4, ra.qualname, 'for pack_id in self._list_packs()', 'repack() no longer visits every existing pack', where=f'{ra.module.relpath}:{ra.lineno}')
+        chk.bad(R4, ra.qualname, 'for pack_id in self._list_packs()', 'repack() no longer repacks every existing pack unconditionally (a pack skipped because of a lock file, a size test, ... keeps the bytes of deleted objects although repack() reports success)', where=f'{ra.module.relpath}:{ra.lineno}')
 
     # the listing repack() iterates over never yields the scratch id: an interrupted repack leaves that file behind, and repack_pack asserts on it
     lp = prog.fn('container:Container._list_packs')
